@@ -7,6 +7,8 @@ relevant harnesses are props=ATTEMPT (out of solver reach) are listed as such. W
 import os, re, json
 S = "/verif/seeded"
 WHY = {
+ "C13-walk-canonical-root-strip-as-given": "changes the ROOT the walker is started on, outside the two extracted blocks; the extraction refuses to model it (contract anchor `WalkDir::new(root_path)` missing) and the check exits 2 (INCONCLUSIVE) — not silently passed, but not counted as a detection",
+ "C13-imported-modules-all-or-nothing-batch": "change is in scan_imported_fixture_modules (parallel file reads: file system + rayon), not encoded; C13 is claimed for the per-path decision only",
  "C01-relative-import-stdlib-name": "change is in imports.rs (module resolution); the import relation is an oracle in the solver build (C14 not applicable)",
  "C07-imported-cache-ignores-content": "change is in the imported-fixtures cache (imports.rs); `get_imported_fixtures` is replaced by the import oracle in the solver build",
  "C07-version-bump-only-on-nameset-change": "needs a re-analysis whose NEW text has statements (real AST: out of reach); the native fidelity gate `seed` trips on it (exit 2, INCONCLUSIVE) — not counted as a detection",
